@@ -257,6 +257,7 @@ type IllegalCase struct {
 
 var illegalKinds = []string{"config-true-under-false", "config-true-under-false-deep", "config-true-in-grouping-used-under-false", "status-strengthened", "status-strengthened-deep",
 	"current-uses-deprecated-grouping", "current-type-obsolete-typedef", "deprecated-type-obsolete-typedef", "current-iffeature-deprecated-feature", "current-base-deprecated-identity",
+	"current-refine-deprecated-node", "current-uses-augment-deprecated-node", "current-augment-deprecated-node",
 	"deviate-add-existing", "deviate-delete-missing", "deviate-delete-wrong-value", "deviate-replace-missing", "not-supported-plus-other", "deviate-add-not-allowed", "deviate-unknown-target"}
 
 func leaf(name string) *sg.Node {
@@ -371,6 +372,56 @@ func buildIllegal(kind string, sub int, legal bool) []*sg.Mod {
 		if legal {
 			m.Identities[1].Status = "deprecated"
 		}
+	case "current-refine-deprecated-node", "current-uses-augment-deprecated-node", "current-augment-deprecated-node":
+		// the path of a refine / augment names nodes of the same module: each of them is a reference.  The more
+		// obsolete node is the last or an inner element of a path of length 1-3; the referencing statement is current or
+		// deprecated, the node deprecated or obsolete.
+		depth := 1 + v(3)
+		weak := []string{"deprecated", "obsolete"}[v(2)]
+		own := ""
+		if weak == "obsolete" && v(2) == 1 {
+			own = "deprecated"
+		}
+		at := v(depth) // index of the path element that carries the weaker status
+		var first, cur *sg.Node
+		path := ""
+		for i := 0; i < depth; i++ {
+			n := &sg.Node{Kind: "container", Name: fmt.Sprintf("p%d", i)}
+			if i == at {
+				n.Status = weak
+			} else if i > at {
+				n.Status = "" // inherits
+			}
+			if cur == nil {
+				first = n
+			} else {
+				cur.Kids = append(cur.Kids, n)
+			}
+			cur = n
+			if path != "" {
+				path += "/"
+			}
+			path += ref(n.Name)
+		}
+		st := own
+		if legal {
+			st = weak
+		}
+		switch kind {
+		case "current-refine-deprecated-node":
+			m.Groupings = []*sg.Grouping{{Name: "g", Kids: []*sg.Node{first}}}
+			top.Kids = append(top.Kids, &sg.Node{Kind: "uses", Name: ref("g"), Status: st, Refines: []sg.Refine{{Target: path, Stmts: []string{`description "refined";`}}}})
+		case "current-uses-augment-deprecated-node":
+			m.Groupings = []*sg.Grouping{{Name: "g", Kids: []*sg.Node{first}}}
+			top.Kids = append(top.Kids, &sg.Node{Kind: "uses", Name: ref("g"), Status: st, Augments: []*sg.Augment{{Target: path, Kids: []*sg.Node{leaf("added")}}}})
+		default:
+			top.Kids = append(top.Kids, first)
+			abs := tpath
+			for _, el := range strings.Split(path, "/") {
+				abs += "/m0:" + strings.TrimPrefix(el, "m0:")
+			}
+			m.Augments = append(m.Augments, &sg.Augment{Target: abs, Status: st, Kids: []*sg.Node{leaf("added")}})
+		}
 	case "deviate-add-existing":
 		st := `units "hours";`
 		if legal {
@@ -454,7 +505,7 @@ func checkIllegal(c IllegalCase) fw.Outcome {
 var illegalProp = fw.Register(&fw.Prop[IllegalCase]{
 	ID: "C14", Name: "illegal",
 	Rule: "illegal constructions (kind x variation: nesting of the construction 0-2 levels deep through containers, lists and choice/case, own-prefix spelling of references, order and kind of the deviates), each with a legal twin that differs in one statement: config true under config false (direct, deep, through a grouping), status strengthened below a weaker parent, " +
-		"a current/deprecated definition referencing a more obsolete typedef / grouping / feature / identity of its own module, deviate add of an existing single-instance property, delete of a missing or differently valued " +
+		"a current/deprecated definition referencing a more obsolete typedef / grouping / feature / identity of its own module, a current/deprecated refine, uses-augment or augment whose path names a more obsolete node of its own module (as last or inner element), deviate add of an existing single-instance property, delete of a missing or differently valued " +
 		"property, replace of a missing property, not-supported next to another deviate, a property not allowed on the target, an unknown target; oracle: the twin compiles, the illegal variant is rejected",
 	Gen: func(t *rapid.T) IllegalCase {
 		return IllegalCase{Kind: illegalKinds[rapid.IntRange(0, len(illegalKinds)-1).Draw(t, "kind")], Sub: rapid.IntRange(0, 9999).Draw(t, "sub")}
